@@ -154,6 +154,14 @@ QerValuesOK(e, q, dir, qos) ==
           /\ Leq(c.cbs, e.cbs) /\ Leq(c.pbs, e.pbs) /\ Leq(c.ebs, e.ebs)
           /\ Leq(BurstOf(gbr, c.dur), e.cbs) /\ Leq(BurstOf(mbr, c.dur), e.pbs) /\ Leq(BurstOf(mbr, c.dur), e.ebs)
 
+\* relaxed reading for sessions under F-QER-RELABEL: every QER has, in one of the two tables, an uplink and a
+\* downlink entry with the values it was last signalled with
+QerValuesRelabelOK(tables, u, s, qos) ==
+  \A q \in DOMAIN s.qers : \A i \in {1, 2} :
+     \/ \E e \in tables.appQer : e.fseid = u /\ e.qer = q /\ e.iface = i /\ e.qfi = s.qers[q].qfi
+                                  /\ QerValuesOK(e, s.qers[q], IF i = 1 THEN "ul" ELSE "dl", qos)
+     \/ \E e \in tables.sessQer : e.fseid = u /\ e.iface = i /\ QerValuesOK(e, s.qers[q], IF i = 1 THEN "ul" ELSE "dl", qos)
+
 QerImageValuesOK(tables, u, s, sq, qos) ==
   /\ \A e \in {x \in tables.appQer : x.fseid = u} :
         e.qer \in DOMAIN s.qers =>
